@@ -21,7 +21,10 @@ Dom == [
   first    |-> {"all", "tiny", "half"},                        \* segmentation of the backend body
   cenc     |-> {"none", "gzip"},                               \* Content-Encoding of the backend's body
   banner   |-> BOOLEAN,
-  shim     |-> BOOLEAN ]
+  shim     |-> BOOLEAN,
+  \* configuration of the handlers (--inject-banner / --banner-height / --favicon-url / --shim-path); the
+  \* decision below does not depend on it, which is what "for all configurations" means here
+  setup    |-> {"plain", "favicon", "rich"} ]
 
 \* "HTML document": the media type proper is text/html or application/xhtml+xml (any letter case)
 HtmlDoc(c) == c.ctype \in {"html", "html-charset", "HTML-upper", "xhtml"}
